@@ -165,6 +165,12 @@ pub enum Op {
     // ---- Event (hand-written future) ----------------------------------------------------
     /// (async) await the event: 1; SKIP in a thread
     EvWait(usize),
+    /// (async) a future whose poll registers its waker with the event, reads the event's flag, THEN
+    /// performs a blocking operation inside the same poll (`true`: lock+unlock mutex `obj`, i.e. a nested
+    /// block_on; `false`: a blocking recv on channel `obj`, i.e. Task::block), and returns Ready iff the
+    /// flag was set when read: 1; SKIP in a thread / without the receiver / on a rendezvous channel /
+    /// when the mutex is already held
+    EvWaitThen(usize, bool, usize),
     /// set the event and wake every registered waker: 0
     EvSet(usize),
     /// wake every registered waker without setting the event: 0
@@ -299,6 +305,11 @@ impl Prog {
                     Op::Close(s) | Op::Avail(s) => {
                         if *s >= o.sems.len() {
                             return bad("semaphore");
+                        }
+                    }
+                    Op::EvWaitThen(e, lock, obj) => {
+                        if *e >= o.events || (*lock && *obj >= o.mutexes) || (!*lock && *obj >= o.chans.len()) {
+                            return bad("event/mutex/channel");
                         }
                     }
                     Op::EvWait(e) | Op::EvSet(e) | Op::EvWake(e) => {
